@@ -173,7 +173,7 @@ pub fn trace(args: &[String]) -> i32 {
     let runs = arg_u64(args, "--runs", 10);
     let first = arg_u64(args, "--first-run", 0);
     let maxlen = arg_u64(args, "--maxlen", 200);
-    let long = arg_u64(args, "--long", 0);      // this many LONG genomes (3 minutes of TLC each)
+    let long = arg_u64(args, "--long", u64::MAX / 400); // at most this many LONG genomes (one per 200 runs)
     let mut out = Out::create(arg_req(args, "--out"));
     for run in first..first + runs {
         let mut rng = run_rng(seed, 0xC05, run);
@@ -196,7 +196,7 @@ pub fn trace(args: &[String]) -> i32 {
         if long > 0 && run % 200 == 7 && run < 200 * long {
             // LONG genomes (beyond 2^14 genes; every few thousand genes a block opener, some of them never
             // closed, the last one opened a few genes before the end), compared as token sequences
-            let n = [16_385usize, 16_500, 20_011][rng.random_range(0..3)];
+            let n = [16_385usize, 20_011, 65_537][(run / 200 % 3) as usize];
             let mut genes: Vec<Value> = Vec::with_capacity(n);
             for pos in 0..n {
                 let r = rng.random_range(0..4000u32);
@@ -208,7 +208,7 @@ pub fn trace(args: &[String]) -> i32 {
             }
             let genes = Value::Array(genes);
             let tokens = translate_flat(&genes);
-            out.line(&json!({"ev": "parse_flat", "run": run, "genes": genes, "tokens": tokens}));
+            out.line(&json!({"ev": "parse_long", "run": run, "genes": genes, "tokens": tokens}));
             continue;
         }
         let len = rng.random_range(0..=maxlen);
